@@ -34,6 +34,8 @@ var propConfigs = map[string]propConfig{
 	"C09": {Gen: true},
 	"C10": {Gen: true},
 	"C12": {Gen: true},
+	"C08": {Gen: true},
+	"C11": {Gen: true},
 }
 
 var pathSuffix = regexp.MustCompile(`@path\d+$`)
@@ -256,6 +258,7 @@ func runCheck(o checkOpts) *CheckResult {
 		fmt.Fprintf(os.Stderr, "functions=%d obligations=%d generation=%.1fs discharge=%.1fs\n", len(results), len(all), tD.Sub(t0).Seconds(), time.Since(tD).Seconds())
 	}
 	nObl, nOK := 0, 0
+	var dyn *dynResult
 	for _, ob := range all {
 		if ob.Kind == "cover" {
 			if !ob.ok() {
@@ -270,6 +273,27 @@ func runCheck(o checkOpts) *CheckResult {
 			continue
 		}
 		rp := e.replay(ob, o)
+		if !rp.Confirmed {
+			// bounded search for a concrete failing input on the real code (once per run)
+			if dyn == nil {
+				d := e.dynamicReplay(o.prop, o)
+				dyn = &d
+			}
+			if dyn.Ran {
+				rp.Body["dynamic_replay_cmd"] = dyn.Cmd
+				rp.Body["dynamic_replay_confirmed"] = dyn.Confirmed
+				rp.Body["dynamic_replay_failing_inputs"] = dyn.Lines
+				if !dyn.Confirmed {
+					rp.Body["dynamic_replay_output"] = dyn.Output
+				}
+				if dyn.Confirmed {
+					rp.Confirmed = true
+					rp.Summary += "\nreal code fails: " + strings.Join(dyn.Lines, "\n                 ")
+				} else {
+					rp.Summary += "\nbounded search on the real code found no failing input"
+				}
+			}
+		}
 		p := writeReplay(ob.Func+"_"+ob.Name, rp.Body)
 		report(Violation{Obligation: oblBase(ob), Replay: p, NoInput: !rp.Confirmed, Detail: rp.Summary})
 	}
